@@ -44,7 +44,7 @@ def h02a(c, mode="sim"):
         op = c.choose("operation", ["place", "cancel", "update", "replace"])
         sources = ["none", "market-not-open", "no-market-book", "exposure", "txn-limit", "custom-control", "own-guard"]
         if op == "place":
-            sources = ["none", "market-not-open", "no-market-book", "exposure", "strategy-validate", "invalid-order", "txn-limit", "custom-control"]
+            sources = ["none", "market-not-open", "no-market-book", "exposure", "strategy-validate", "invalid-order", "txn-limit", "custom-control", "already-placed"]
         if mode == "live" and op != "place":
             sources.append("stream-down")
         if mode == "sim" and op != "place":
@@ -63,7 +63,15 @@ def h02a(c, mode="sim"):
         fl.process_order_package = lambda p: sent.append(p)
         bk = cm.book([cm.runner(1), cm.runner(2)], version=7)
         market = cm.add_market(fl, bk) if mode == "sim" else fl._add_market(cm.MID, bk)
-        if op == "place":
+        if op == "place" and src == "already-placed":
+            # the very order object was placed before (it rests at the exchange, or has completed): not a state that permits a placement
+            if mode == "sim":
+                order, _ = ss.resting_limit(c, "o", fl, market, strategy, 100, status=c.choose("placed_order_status", [S.EXECUTABLE, S.EXECUTION_COMPLETE]), price=2.0,
+                                            persistence="LAPSE", max_frags=0, allow_cancelled=False, side="BACK")
+                c.assume(c.And(order.order_type.size >= 2, order.order_type.size <= 100))
+            else:
+                order = lc.live_resting(fl, market, strategy, client, 100, 5.0)
+        elif op == "place":
             order = cm.mk_limit(strategy, c.choose("side", ["BACK", "LAY"]), 2.0, 5.0)
         elif mode == "sim":
             order, _ = ss.resting_limit(c, "o", fl, market, strategy, 100, status=S.EXECUTABLE, price=2.0, persistence="LAPSE", max_frags=0,
@@ -128,6 +136,8 @@ def h02a(c, mode="sim"):
             applies = False
         if src in ("market-not-open", "no-market-book", "exposure", "strategy-validate", "invalid-order", "txn-limit", "custom-control", "stream-down") and force:
             applies = False
+        if src == "already-placed":
+            applies = True
         if outstanding:
             applies = True  # one operation in flight: the order's own guard refuses, with or without controls
         # (a request made through another client's transaction is refused whatever `force` says: force skips the controls only)
@@ -159,6 +169,11 @@ def h02a(c, mode="sim"):
             raised = e
         except KeyError as e:
             raised = e  # market missing from the framework
+        except Exception as e:  # noqa
+            from flumine.exceptions import OrderError as _OE
+            if not isinstance(e, _OE):
+                raise
+            raised = e  # an order that has already been placed
         refused = raised is not None or res is False
         after = _snapshot(order, market, strategy)
         c.observe("refused", refused)
@@ -169,7 +184,11 @@ def h02a(c, mode="sim"):
         if refused:
             c.cover("refused")
             c.ob("refused.nothing-sent", len(sent) == 0)
-            if op == "place":
+            if op == "place" and src == "already-placed":
+                for k in before:
+                    c.ob("refused-second-placement.%s-unchanged" % k, after[k] == before[k], before=str(before[k])[:60], after=str(after[k])[:60])
+                c.cover("second-placement-refused")
+            elif op == "place":
                 c.ob("refused-new-order.violation", order.status == S.VIOLATION)
                 c.ob("refused-new-order.not-in-blotter", not after["in_blotter"])
                 for k in ("blotter_ids", "live", "views", "rc_trades", "rc_live", "rc_placed", "rc_reset", "rc_invested", "trade_status", "trade_log"):
@@ -260,7 +279,11 @@ def h02a_betdaq(c):
         if refused:
             c.cover("refused")
             c.ob("refused.nothing-sent", len(sent) == 0)
-            if op == "place":
+            if op == "place" and src == "already-placed":
+                for k in before:
+                    c.ob("refused-second-placement.%s-unchanged" % k, after[k] == before[k], before=str(before[k])[:60], after=str(after[k])[:60])
+                c.cover("second-placement-refused")
+            elif op == "place":
                 c.ob("refused-new-order.violation", order.status == S.VIOLATION)
                 c.ob("refused-new-order.not-in-blotter", not after["in_blotter"])
                 for k in ("blotter_ids", "live", "rc_trades", "rc_live", "rc_placed", "rc_invested", "trade_status", "trade_log"):
